@@ -96,6 +96,7 @@ def _check_main(run, P):
     run.do(_merge, run, P)
     run.do(_handlers, run, P)
     run.do(_identity, run, P)
+    run.do(_inner_mappers, run, P)
     run.do(_flat, run, P)
 
 
@@ -852,6 +853,44 @@ def _enclosing_test(root, target):
         if isinstance(n, ast.If) and any(b is target for b in n.body):
             best = n.test
     return best
+
+
+def _inner_mappers(run, P):
+    """A mapper that the simplifier passes apply to a subtree *while simplifying* meets
+    every node class, NullASTNode included (the passes make them): it has a handler for
+    each, or simplification dies on a tree it should have simplified."""
+    m = P.module(MOD)
+    node_classes = sorted(c.name for c in m.classes.values()
+                          if "mapper_method" in getattr(c, "attrs", {}))
+    if len(node_classes) < 5:
+        raise AnalysisError("dag_ast: node classes (mapper_method) not found")
+    n = 0
+    for cname in ("ASTSimplifyMapper", "ASTPreSimplifyMapper", "ASTPostSimplifyMapper"):
+        C = m.classes.get(cname)
+        if C is None:
+            continue
+        for name, f in sorted(C.methods.items()):
+            for x in ast.walk(f.node):
+                # <Mapper>()(<tree>)
+                if isinstance(x, ast.Call) and isinstance(x.func, ast.Call) \
+                        and isinstance(x.func.func, ast.Name) and x.func.func.id in m.classes \
+                        and not x.func.args:
+                    K = m.classes[x.func.func.id]
+                    missing = [nc for nc in node_classes
+                               if P.method(K, "map_" + nc) is None
+                               and P.method(K, m.classes[nc].attrs["mapper_method"].value
+                                            if isinstance(m.classes[nc].attrs["mapper_method"], ast.Constant)
+                                            else "map_" + nc) is None]
+                    n += 1
+                    run.ob("C06.handlers", f, x, not missing,
+                           construct=f"{cname}.{name} applies {K.name}: it has a handler for every node "
+                                     f"class" + (f" (missing: {missing})" if missing else ""),
+                           why="a subtree that is looked at during simplification can hold any node, "
+                               "NullASTNodes in particular: without a handler the pass raises on a "
+                               "program it is meant to simplify")
+    run.ob("C06.handlers", m, None, True,
+           construct=f"simplifier passes: {n} inner mapper application(s) examined",
+           why="scan summary")
 
 
 def _identity(run, P):
